@@ -56,8 +56,10 @@ var patterns = map[string]func(tr, i, n int) uint32{
 	"increasing":    func(tr, i, n int) uint32 { return 10 },
 	"interleaved":   func(tr, i, n int) uint32 { if i == 0 { return uint32(tr) * 5 }; return 15 },
 	"later-earlier": func(tr, i, n int) uint32 { if i == 0 { return uint32(2-tr) * 100 }; return 0 },
+	// one tick apart at 960 ticks per quarter: gaps of about half a millisecond
+	"adjacent-ticks": func(tr, i, n int) uint32 { return 1 },
 }
-var patNames = []string{"one-tick", "step-middle", "increasing", "interleaved", "later-earlier"}
+var patNames = []string{"one-tick", "step-middle", "increasing", "interleaved", "later-earlier", "adjacent-ticks"}
 
 type expectEv struct {
 	track int
@@ -70,6 +72,9 @@ type expectEv struct {
 func build(ns []int, pat string, withMeta bool) ([]byte, [][]expectEv) {
 	s := smf.NewSMF1()
 	s.TimeFormat = smf.MetricTicks(480)
+	if pat == "adjacent-ticks" {
+		s.TimeFormat = smf.MetricTicks(960)
+	}
 	exp := make([][]expectEv, len(ns))
 	for tr, n := range ns {
 		var t smf.Track
